@@ -171,6 +171,12 @@ func vxC04On(in []byte) {
 			vx.Assertf("C05.end", real[k].End.Line == el && real[k].End.Column == ec, "token %d: want end %d:%d got %d:%d", k, el, ec, real[k].End.Line, real[k].End.Column)
 		}
 	}
+	if asciiNoTab && len(toks) > 0 {
+		// the end-of-input marker sits at the end of the input
+		el, ec := refLoc(in, len(in))
+		eof := toks[len(toks)-1]
+		vx.Assertf("C05.eof_position", eof.Start.Line == el && eof.Start.Column == ec, "end of input is %d:%d, EOF token reported at %d:%d", el, ec, eof.Start.Line, eof.Start.Column)
+	}
 	vx.Assertf("C04.comment_count", len(tk.Comments) == len(ref.comments), "want %d comments got %d", len(ref.comments), len(tk.Comments))
 	if len(tk.Comments) == len(ref.comments) {
 		for k, rc := range ref.comments {
